@@ -204,7 +204,7 @@ func one(run *vk.Run, cfg string, st *stores.Opened, offs []ebu.Offset, batch, L
 	}
 	viol := func(rule string) {
 		s := fam + ":" + rule
-		if truncated && (rule == "nil-after-incomplete-delivery" || rule == "delivery-not-a-prefix") {
+		if truncated && (rule == "nil-after-incomplete-delivery" || rule == "delivery-not-a-prefix" || rule == "nil-after-cancel-with-events-remaining") {
 			s = "durable:replay-nil-after-limit-truncated-page"
 		}
 		run.Violation(s, desc, witness)
@@ -246,10 +246,16 @@ func one(run *vk.Run, cfg string, st *stores.Opened, offs []ebu.Offset, batch, L
 				viol("delivery-continued-after-callback-error")
 			}
 		}
-	case "cb-cancel", "pre-cancel":
-		// a cancelled replay may still deliver everything it had already fetched; what it may not
-		// do is return nil after a proper prefix (rule 2 above)
-		_ = cancelledAt
+	case "cb-cancel":
+		// cancelled while at least one event was still undelivered: whatever it goes on to deliver
+		// (rows already fetched), Replay must say that it was cancelled
+		if cancelledAt > 0 && cancelledAt < S && err == nil {
+			viol("nil-after-cancel-with-events-remaining")
+		}
+	case "pre-cancel":
+		if S > 0 && err == nil {
+			viol("nil-with-cancelled-context")
+		}
 	default:
 		if injected && err == nil {
 			viol("store-error-swallowed")
